@@ -41,6 +41,7 @@ op_strategy = st.one_of(
                                                                             "recover", "recover", "dup-dashed-id", "dup-dashed-id"]),
                            "target": st.integers(0, 30), "other": st.integers(0, 30), "id": st.sampled_from(IDS)}),
     st.just({"op": "roundtrip"}),
+    st.sampled_from([{"op": "roundtrip", "via": "deepcopy"}, {"op": "roundtrip", "via": "pickle"}]),      # the forest goes on as a copy of itself
     st.fixed_dictionaries({"op": st.just("query"), "on": st.integers(-1, 30), "arch": st.sampled_from(ARCHES + ["src", "src", "nope", None, None]),
                            "types": gen.subsets(gen.CI_VARIANT_TYPES + ["self"], max_size=3), "recursive": st.booleans()}),
     st.fixed_dictionaries({"op": st.just("query"), "on": st.integers(-1, 30), "arch": st.sampled_from(ARCHES + ["src", None]),
@@ -282,6 +283,23 @@ def history_case(case):
                 refuses("add-empty-arches", (ValueError, TypeError), objs[tuid].add, new_variant(ci, free_id, "%s-%s" % (tuid, free_id), "variant", []))
             check(structure(ci) == before, "refused-add-changed-forest", lambda: "step %d (%s): keys, objects or parent links changed" % (step, bad))
             labels.add("refused")
+        elif kind == "roundtrip" and op.get("via"):
+            import copy
+            import pickle
+            if op["via"] == "deepcopy":
+                again = must("deepcopy", copy.deepcopy, ci)
+            else:
+                again = must("pickle", lambda: pickle.loads(pickle.dumps(ci)))
+            # the copy is a forest of its own: nothing in it refers to the original (which is thrown away here)
+            originals = set(id(v) for v in collect(ci).values())
+            for v in collect(again).values():
+                check(id(v) not in originals and (v.parent is None or id(v.parent) not in originals), "copy-refers-to-original",
+                      "step %d: after %s, %r or its parent is an object of the original forest" % (step, op["via"], v.uid))
+            poison_forest = collect(ci)
+            ci = again
+            for v in poison_forest.values():
+                v.arches, v.uid = set(["poisoned"]), "poisoned-" + str(v.uid)
+            labels.add("copied")
         elif kind == "roundtrip":
             text = must("dumps", ci.dumps)
             again = ComposeInfo()
